@@ -1,3 +1,4 @@
+import re
 """Unit and property definitions: which /repo functions are extracted, with which shims and contracts."""
 
 SYMBOL_SRC = ("src/symbol/mod.rs", ["struct:Symbol", "const:SYMBOL"])
@@ -178,7 +179,7 @@ UNITS = {
             ("src/server/mod.rs", ["struct:ConnectionInfo", "struct:Address"]),
             ("src/header/mod.rs", ["struct:Header", "consts:Header", "fn:Header::get_header_list:assume"]),
             ("src/response/mod.rs", ["struct:Response", "struct:StatusCodeReasonPhrase", "struct:ResponseStatusCodeReasonPhrase",
-                                     "const:STATUS_CODE_REASON_PHRASE", "struct:Error", "fn:Response::get_response:assume"]),
+                                     "const:STATUS_CODE_REASON_PHRASE", "struct:Error", "fn:Response::get_response:assume", "fn:Response::new"]),
             ("src/app/controller/index/mod.rs", ['struct:IndexController', 'fn:IndexController::is_matching:assume', 'fn:IndexController::process:assume', 'fn:IndexController::is_matching_request:assume', 'fn:IndexController::process_request:assume']),
             ("src/app/controller/style/mod.rs", ['struct:StyleController', 'fn:StyleController::is_matching:assume', 'fn:StyleController::process:assume', 'fn:StyleController::is_matching_request:assume', 'fn:StyleController::process_request:assume']),
             ("src/app/controller/script/mod.rs", ['struct:ScriptController', 'fn:ScriptController::is_matching:assume', 'fn:ScriptController::process:assume', 'fn:ScriptController::is_matching_request:assume', 'fn:ScriptController::process_request:assume']),
@@ -270,7 +271,7 @@ UNITS = {
         "specs": ["contracts/spec/hv.rs", "contracts/spec/frames.rs", "contracts/spec/crlf.rs", "contracts/spec/request.rs", "contracts/spec/response_parse.rs", "contracts/spec/lines.rs", "contracts/spec/response_read.rs", "contracts/spec/http.rs", "contracts/spec/response_thm.rs", "contracts/spec/names_status.rs"],
         "sources": [
             SYMBOL_SRC,
-            ("src/http/mod.rs", ["struct:Version", "const:VERSION", "struct:HTTP", "fn:HTTP::version_list:assume"]),
+            ("src/http/mod.rs", ["struct:Version", "const:VERSION", "struct:HTTP", "fn:HTTP::version_list"]),
             ("src/ext/string_ext/mod.rs", ["struct:StringExt", "fn:StringExt::truncate_new_line_carriage_return"]),
             ("src/mime_type/mod.rs", ["struct:MimeType", "consts:MimeType"]),
             ("src/header/mod.rs", ["struct:Header", "consts:Header"]),
@@ -396,6 +397,19 @@ SAFETY_KINDS = ("precondition", "arithmetic-overflow", "division-by-zero", "inde
 CONTAINMENT_WORDS = ("fs_allowed", "rel_inside", "harmless_suffix", "under_root", "has_dotdot_seg", "resolves_a_served_link", "dir_part(", "link_target(")
 
 
+def is_safety(f):
+    """A failed obligation about the code's own safety (a callee's precondition, overflow, bounds, termination, panic).
+    The precondition of a PROOF lemma (`lemma_*`, `theorem_*`, `axiom_*` called from a proof block) is a step of a functional
+    argument, not a safety obligation of the code: it is owned like an assertion."""
+    if f.kind not in SAFETY_KINDS:
+        return False
+    if f.kind == "precondition" and "@" in f.snippet:
+        callee = f.snippet.rsplit("@", 1)[1].strip()
+        if re.match(r"(lemma_|theorem_|axiom_)", callee):
+            return False
+    return True
+
+
 def owner(unit, f):
     """Which property a failing obligation of a SHARED unit is reported under (None: every property using the unit).
     Every failure has exactly one owner or is reported by all users - nothing is dropped."""
@@ -414,7 +428,7 @@ def owner(unit, f):
         if unit == "request_parse":
             return "C14"
     # case-insensitive header lookup: C14 states it; the CORS decision (Origin, Access-Control-Request-*) and the Range header rest on it
-    if f.fn == "Request::get_header" and f.kind not in SAFETY_KINDS:
+    if f.fn == "Request::get_header" and not is_safety(f):
         return ("C14", "C11", "C09", "C03")
     if f.fn.startswith("URL::is_path_inside_root") and f.kind == "postcondition" and f.snippet.replace(" ", "").startswith("inside(path@)==>res"):
         return "C02"        # the guard refuses a path that stays inside: files are not served (C02), containment (C01) is intact
@@ -442,33 +456,33 @@ def owner(unit, f):
             return ("C03", "C05", "C02")      # an error of the range pipeline (416) must not be swallowed on the way out of the lookup
         if "error_status_kept" in f.snippet:
             return ("C03", "C05", "C02")
-        if f.kind in SAFETY_KINDS:
+        if is_safety(f):
             return "C04"
         # the controller keeps the header frame and a registered status (C10 / C05 / C04); everything else functional is C02
         if "frame_status" in f.snippet or "err_registered" in f.snippet:
             return "C05"
         return ("C10", "C05") if "frame_headers" in f.snippet or "frame_ok" in f.snippet else "C02"
     if unit == "mime":
-        return "C04" if f.kind in SAFETY_KINDS else "C02"
+        return "C04" if is_safety(f) else "C02"
     if unit == "range_parse":
         # a panic in the range parser is both a crash of the server (C04) and a parser that does not report an error (C20);
         # the whole-file clauses are what C02 needs from it
-        if f.kind in SAFETY_KINDS:
+        if is_safety(f):
             return ("C04", "C20")
         sn = f.snippet.replace(" ", "")
         return ("C03", "C02") if ("s_bytes0" in sn or "num(a)==0" in sn or "part_ok" in sn) else "C03"
     if unit == "response_gen":
         if f.fn == "Response::generate":
             return "C15"
-        if f.kind in SAFETY_KINDS:
+        if is_safety(f):
             return ("C04", "C05")
         # the serialiser: status line, framing headers, Content-Length, the parts and what HEAD / OPTIONS get
         return ("C05", "C03", "C09", "C15", "C02", "C04")
     if unit == "multipart":
-        return ("C20", "C04") if f.kind in SAFETY_KINDS else "C16"
+        return ("C20", "C04") if is_safety(f) else "C16"
     if f.kind == "precondition" and f.snippet.startswith("false@"):
         return "C13"
-    if f.fn == "StringExt::truncate_new_line_carriage_return" and f.kind not in SAFETY_KINDS:
+    if f.fn == "StringExt::truncate_new_line_carriage_return" and not is_safety(f):
         return ("C14", "C05", "C10", "C15", "C16")       # shared by the request, response and multipart header readers
     if "count_name" in f.snippet or "c10_names" in f.snippet or "not_a_grant_name" in f.snippet:
         return "C10"
@@ -476,12 +490,12 @@ def owner(unit, f):
         return "C11"
     if unit == "cors":
         # which grants a request gets (C11) and that a preflight gets them (C09); panics are C04
-        return "C04" if f.kind in SAFETY_KINDS else ("C11", "C09", "C10")   # C10: the grants must not add a second Vary / hardening header
+        return "C04" if is_safety(f) else ("C11", "C09", "C10")   # C10: the grants must not add a second Vary / hardening header
     if unit == "header_list":
-        return "C04" if f.kind in SAFETY_KINDS else ("C10", "C05")
+        return "C04" if is_safety(f) else ("C10", "C05")
     if unit == "request_parse":
         # what the request parser hands on: header values without CR / LF feed the echoed CORS headers and so the response head
-        if f.kind in SAFETY_KINDS:
+        if is_safety(f):
             return ("C04", "C20", "C14")
         if f.fn == "StringExt::truncate_new_line_carriage_return" or "no_crlf" in f.snippet:
             return ("C14", "C05", "C10")
@@ -496,7 +510,7 @@ def owner(unit, f):
             return ("C09", "C02")
         if "serves_whole" in sn or "static_match" in sn or "not_builtin" in sn or "static_status" in sn:
             return ("C02", "C09")
-        if f.kind in SAFETY_KINDS:
+        if is_safety(f):
             return ("C04", "C20") if unit == "forms" else "C04"
         if "forwards_unchanged" in sn:
             return ("C10", "C05", "C03", "C02", "C09", "C11", "C04")
